@@ -96,7 +96,7 @@ fn drive_ilog(out: &mut Out, stats: &mut Stats, rng: &mut Rng, thorough: bool) {
         Ok(r) => out.line(&format!("{{\"op\":\"ilog\",\"x\":{},\"res\":{}}}", x, r)),
         Err(m) => out.line(&format!("{{\"op\":\"panic\",\"during\":\"ilog_2\",\"msg\":{}}}", jstr(&m))),
     };
-    for x in 0..(if thorough { 70000usize } else { 5000 }) {
+    for x in 1..(if thorough { 70000usize } else { 5000 }) {
         one(out, x);
         n += 1;
     }
@@ -107,8 +107,8 @@ fn drive_ilog(out: &mut Out, stats: &mut Stats, rng: &mut Rng, thorough: bool) {
     for k in 0..64u32 {
         for off in [-1i64, 0, 1] {
             let x = (1u128 << k) as i128 + off as i128;
-            if x < 0 || x > usize::MAX as i128 {
-                continue;
+            if x < 1 || x > usize::MAX as i128 {
+                continue; // ilog_2 is only ever applied to table lengths (>= 1)
             }
             match guarded(|| ilog_2(x as usize)) {
                 Ok(r) => out.line(&format!("{{\"op\":\"ilogp\",\"k\":{},\"off\":{},\"res\":{}}}", k, off, r)),
